@@ -167,7 +167,7 @@ bool Instance::parse_pretend_valid_expr(const char* expr) {
             got_sig = false;
             // v.do_hash160();
             // keyid = uint160(v.data_value());
-            pretend_valid_map[sig] = s;
+            pretend_valid_map.insert({sig, s});
             pretend_valid_pubkeys.insert(s);
             // auto key = CPubKey(ParseHex(p));
             // if (!key.IsFullyValid()) {
